@@ -92,8 +92,9 @@ package cryptoutils
 //@   safety all
 
 // DES key parity (FIPS 46-3): every octet gets odd parity by adjusting its least significant bit.
-//@ spec func bit(y int, t int) int { (y / (t == 0 ? 1 : (t == 1 ? 2 : (t == 2 ? 4 : (t == 3 ? 8 : (t == 4 ? 16 : (t == 5 ? 32 : (t == 6 ? 64 : (t == 7 ? 128 : 256))))))))) % 2 }
-//@ spec func pcLow(y int, j int) int { j <= 0 ? 0 : pcLow(y, j - 1) + bit(y, j - 1) }
+//@ spec func pcLow(y int, j int) int {
+//@     (j > 0 ? y % 2 : 0) + (j > 1 ? (y / 2) % 2 : 0) + (j > 2 ? (y / 4) % 2 : 0) + (j > 3 ? (y / 8) % 2 : 0)
+//@   + (j > 4 ? (y / 16) % 2 : 0) + (j > 5 ? (y / 32) % 2 : 0) + (j > 6 ? (y / 64) % 2 : 0) + (j > 7 ? (y / 128) % 2 : 0) }
 //@ spec func oddParity(b int) int { pcLow(b, 8) % 2 == 0 ? (b % 2 == 0 ? b + 1 : b - 1) : b }
 //@ opaque
 //@ func DesKeyAdjustParity
